@@ -376,6 +376,14 @@ func genCase(rt *rapid.T, maxN int) Case {
 			c.Names = append(c.Names, nm)
 		}
 	}
+	// a depends_on list may name a stage more than once: that is the same as naming it once
+	if len(c.Edges) > 0 && rapid.IntRange(0, 3).Draw(rt, "repeat-an-entry") == 0 {
+		for k := rapid.IntRange(1, 2).Draw(rt, "repeats"); k > 0; k-- {
+			e := c.Edges[rapid.IntRange(0, len(c.Edges)-1).Draw(rt, "which-entry")]
+			at := rapid.IntRange(0, len(c.Edges)).Draw(rt, "repeat-at")
+			c.Edges = append(c.Edges[:at], append([][2]int{e}, c.Edges[at:]...)...)
+		}
+	}
 	if rapid.Bool().Draw(rt, "shuffle-depends_on-entries") && len(c.Edges) > 1 {
 		c.Edges = rapid.Permutation(c.Edges).Draw(rt, "edge-order")
 	}
